@@ -358,9 +358,9 @@ def write_replay(pid, payload):
     return path
 
 
-def write_evidence(pid, tier, seed, coverage, wall, violations, assumptions):
+def write_evidence(pid, tier, seed, coverage, wall, violations, assumptions, level="proof"):
     os.makedirs(EVID, exist_ok=True)
-    ev = {"property_id": pid, "tier": tier, "seed": seed, "level": "proof", "coverage": coverage,
+    ev = {"property_id": pid, "tier": tier, "seed": seed, "level": level, "coverage": coverage,
           "assumptions": assumptions, "wall_s": round(wall, 2), "violations": violations}
     tmp = os.path.join(EVID, pid + ".json.tmp")
     with open(tmp, "w") as f:
